@@ -112,9 +112,21 @@ def handleNorm (a : Arr Rat) (ord axis keep : String) : Option String := do
   | .err e => some ("err " ++ e.name)
   | .panic => some "panic"
 
-/-- the digit array of the `gnorm` lines (values -9 … 9, zeros included), the same formula as `digit` in the harness -/
-def digitArr (shape : List Nat) : Arr Rat :=
-  ⟨(List.range shape.prod).map fun i => (((((i * 7 + i / 13 + i / 1021) % 19 : Nat) : Int) - 9 : Int) : Rat), shape⟩
+/-- the digit array of the `gnorm` lines (values -9 … 9, zeros included), the same formula as `digit` in the harness.
+The type token may carry a spike: `f64@p` puts the unique greatest magnitude (-12) at flat position `p`; `f64#p` puts the unique
+least magnitude (0) at `p` and replaces every other zero by 5. -/
+def digitAt (i : Nat) : Int := (((i * 7 + i / 13 + i / 1021) % 19 : Nat) : Int) - 9
+
+def digitArr (shape : List Nat) (ty : String) : Option (Arr Rat) :=
+  let n := shape.prod
+  match ty.splitOn "@", ty.splitOn "#" with
+  | [_, p], _ => do
+    let p ← parseNat? p
+    some ⟨(List.range n).map fun i => ((if i = p then -12 else digitAt i : Int) : Rat), shape⟩
+  | _, [_, p] => do
+    let p ← parseNat? p
+    some ⟨(List.range n).map fun i => ((if i = p then 0 else if digitAt i = 0 then 5 else digitAt i : Int) : Rat), shape⟩
+  | _, _ => some ⟨(List.range n).map fun i => ((digitAt i : Int) : Rat), shape⟩
 
 /-- largest `gnorm` element count the model answers itself; above it the harness-native reference (validated against these) answers -/
 def gnormLimit : Nat := 6000
@@ -160,9 +172,9 @@ def handle (op : String) (args : List String) : Option String :=
   | "pnorm", [a, ea, base, ord, axis, keep] => do
     let a ← bandArr? base (← parseArr? a) (← parseArr? ea)
     handleNorm a ord axis keep
-  | "gnorm", [shape, _ty, ord, axis] => do
+  | "gnorm", [shape, ty, ord, axis] => do
     let shape ← parseNatList? shape
-    if shape.prod > gnormLimit then some "native" else handleNorm (digitArr shape) ord axis "none"
+    if shape.prod > gnormLimit then some "native" else handleNorm (← digitArr shape ty) ord axis "none"
   | "qr", [a] => do
     let a ← parseArr? a
     some (showRes (fun l => ";".intercalate (l.map showQR)) (qrArr (toRatArr a)))
